@@ -173,10 +173,10 @@ def ttml(rng):
   if rng.random() < 0.7:
     tt_attrs.append('xml:lang="%s"' % rng.choice(["en", "", "fr"]))
   for name, vals in (("ttp:cellResolution", ["32 15", "40 24", "0 0", "x", "10"]), ("ttp:frameRate", ["25", "30", "24", "0", "x", "1000"]),
-                     ("ttp:frameRateMultiplier", ["1000 1001", "1 1", "0 1", "1 0", "x"]), ("ttp:tickRate", ["10000000", "1", "0", "x"]),
-                     ("ttp:timeBase", ["media", "smpte", "clock"]), ("ittp:aspectRatio", ["16 9", "4 3", "0 1", "x"]),
-                     ("ttp:displayAspectRatio", ["16 9", "1 0", "x"]), ("ittp:activeArea", ["10% 10% 80% 80%", "0% 0% 100% 100%", "110% 0% 1% 1%", "10% 10%", "x"]),
-                     ("tts:extent", ["1920px 1080px", "640px 480px", "auto", "50% 50%", "0px 0px", "x"]), ("ttp:profile", ["http://www.w3.org/ns/ttml/profile/imsc1/text"]),
+                     ("ttp:frameRateMultiplier", ["1000 1001", "1 1", "0 1", "1 0", "x", "1000", "1000 1001 1"]), ("ttp:tickRate", ["10000000", "1", "0", "x"]),
+                     ("ttp:timeBase", ["media", "smpte", "clock"]), ("ittp:aspectRatio", ["16 9", "4 3", "0 1", "x", "16", "16 9 1"]),
+                     ("ttp:displayAspectRatio", ["16 9", "1 0", "x"]), ("ittp:activeArea", ["10% 10% 80% 80%", "0% 0% 100% 100%", "110% 0% 1% 1%", "10% 10%", "x", "10px 10px 80px 80px", "10% 10% 80% 80% 1%", "-10% 10% 80% 80%"]),
+                     ("tts:extent", ["1920px 1080px", "640px 480px", "auto", "50% 50%", "0px 0px", "x", "100px", "100px 100px 100px", "1e3px 1e3px", "1.5px 2px"]), ("ttp:profile", ["http://www.w3.org/ns/ttml/profile/imsc1/text"]),
                      ("xml:space", ["preserve", "default"]), ("ttp:dropMode", ["dropNTSC", "nonDrop"])):
     if rng.random() < 0.2:
       tt_attrs.append('%s="%s"' % (name, rng.choice(vals)))
